@@ -9,8 +9,8 @@ EXTENDS RoutingBuild, TLC, Json
 
 CONSTANTS Alpha,      \* code points for text values
           MaxText,    \* maximal length of a text value
-          Shapes,     \* subset of 1..14
-          ConvIds,    \* subset of 1..13
+          Shapes,     \* subset of 1..21
+          ConvIds,    \* subset of 1..15
           Binds       \* subset of {10 * b + s : b \in 1..7, s \in 1..3}: binding b with script root s
 
 VARIABLES ph, sh, cv, val, val2, bd, sc, ext
@@ -20,7 +20,8 @@ T(s) == s   \* readability: literal texts are written as tuples of code points
 X == <<120>>
 Y == <<121>>
 Q == <<113>>
-Conv(k, a, b, c, sg, items) == [k |-> k, a |-> a, b |-> b, c |-> c, signed |-> sg, items |-> items]
+Conv(k, a, b, c, sg, items) == [k |-> k, a |-> a, b |-> b, c |-> c, signed |-> sg, items |-> items, hasmin |-> FALSE, min |-> 0, hasmax |-> FALSE, max |-> 0]
+Ranged(c, lo, hi) == [c EXCEPT !.hasmin = TRUE, !.min = lo, !.hasmax = TRUE, !.max = hi]
 AnyItems == <<<<97>>, <<97, 32, 98>>, <<120, 37, 52, 49>>, <<113, 63, 114>>, <<104, 35, 105>>, <<233>>>>   \* a | a b | x%41 | q?r | h#i | e-acute
 ConvU(i) ==
   CASE i = 1 -> Conv("string", 1, 0, 0, FALSE, <<>>)
@@ -35,6 +36,9 @@ ConvU(i) ==
     [] i = 10 -> Conv("any", 0, 0, 0, FALSE, AnyItems)
     [] i = 11 -> Conv("uuid", 0, 0, 0, FALSE, <<>>)
     [] i = 12 -> Conv("path", 0, 0, 0, FALSE, <<>>)
+    [] i = 13 -> Ranged(Conv("int", 0, 0, 0, FALSE, <<>>), 5, 100)
+    [] i = 14 -> Ranged(Conv("float", 0, 0, 0, TRUE, <<>>), 500, 10500)          \* min=0.5, max=10.5 (the rule syntax has no negative arguments)
+    [] i = 15 -> Conv("string", 1, 2, 0, FALSE, <<>>)                             \* maxlength alone
     [] OTHER -> Conv("string", 1, 0, 0, FALSE, <<>>)
 
 IntTexts == {<<48>>, <<55>>, <<52, 50>>, <<49, 48, 48>>, <<49, 50, 51, 52>>, <<45, 53>>, <<45, 52, 50>>, <<45, 49, 48, 48>>,
@@ -55,9 +59,32 @@ Cands(c) ==
     [] OTHER          -> {Val("uuid", U1), Val("uuid", U2)}
 ValuesOf(c) == {v \in Cands(c) : Accepts(c, v)}
 
-Lit(t) == [k |-> "lit", t |-> t, pre |-> <<>>, name |-> <<>>, conv |-> ConvU(1), post |-> <<>>]
-Var(pre, n, c, post) == [k |-> "var", t |-> <<>>, pre |-> pre, name |-> n, conv |-> c, post |-> post]
-Rule(ep, segs, branch, defaults, dom) == [ep |-> ep, segs |-> segs, branch |-> branch, defaults |-> defaults, dom |-> dom]
+EX == <<101, 120, 97, 109, 112, 108, 101, 46, 99, 111, 109>>     \* example.com
+API == <<97, 112, 105>>
+WWW == <<119, 119, 119>>
+OTHERH == <<111, 46, 101, 120, 97, 109, 112, 108, 101>>         \* o.example
+HTTPS == <<104, 116, 116, 112, 115>>
+ScriptU(i) == CASE i = 1 -> <<SLASH>> [] i = 2 -> <<SLASH, 97, 112, 112>> [] OTHER -> <<SLASH, 97, 112, 112, SLASH>>
+\* [hm, ruledom, server, sub, scheme]
+BindU(i) ==
+  CASE i = 1 -> [hm |-> FALSE, dom |-> <<>>, server |-> EX, sub |-> <<>>, scheme |-> HTTP]
+    [] i = 2 -> [hm |-> FALSE, dom |-> API, server |-> EX, sub |-> WWW, scheme |-> HTTP]
+    [] i = 3 -> [hm |-> FALSE, dom |-> API, server |-> EX, sub |-> API, scheme |-> HTTPS]
+    [] i = 4 -> [hm |-> FALSE, dom |-> <<>>, server |-> EX, sub |-> WWW, scheme |-> HTTP]
+    [] i = 5 -> [hm |-> TRUE, dom |-> EX, server |-> EX, sub |-> <<>>, scheme |-> HTTP]
+    [] i = 6 -> [hm |-> TRUE, dom |-> OTHERH, server |-> EX, sub |-> <<>>, scheme |-> HTTPS]
+    [] i = 7 -> [hm |-> FALSE, dom |-> API, server |-> EX, sub |-> <<>>, scheme |-> HTTP]
+    [] OTHER -> [hm |-> FALSE, dom |-> <<>>, server |-> EX, sub |-> <<97>>, scheme |-> HTTP]     \* 8: bound on subdomain "a"
+
+Lit(t) == [k |-> "lit", t |-> t, pre |-> <<>>, name |-> <<>>, conv |-> ConvU(1), post |-> <<>>, more |-> <<>>]
+Var(pre, n, c, post) == [k |-> "var", t |-> <<>>, pre |-> pre, name |-> n, conv |-> c, post |-> post, more |-> <<>>]
+Var2(pre, n, c, post, n2, c2, post2) == [Var(pre, n, c, post) EXCEPT !.more = <<[name |-> n2, conv |-> c2, post |-> post2]>>]
+Rule(ep, segs, branch, defaults, dom) == [ep |-> ep, segs |-> segs, branch |-> branch, defaults |-> defaults, dom |-> dom, dsegs |-> <<>>]
+DynRule(ep, segs, branch, dseg) == [ep |-> ep, segs |-> segs, branch |-> branch, defaults |-> <<>>, dom |-> <<>>, dsegs |-> <<dseg>>]
+UN == <<117>>            \* "u"
+PN == <<112, 111, 114, 116>>   \* "port"
+DomVals == {Val("str", <<97>>), Val("str", <<97, 46, 98>>), Val("str", <<120, 45, 49>>)}      \* a | a.b | x-1
+PortVals == {Val("int", <<56, 48, 56, 48>>), Val("int", <<56, 49>>)}                          \* 8080 | 81
 LA == <<108, 97>>       \* "la"
 LB == <<108, 98>>       \* "lb"
 EDIT == <<101, 100, 105, 116>>
@@ -91,35 +118,33 @@ RulesFor(s, c, v0, dom) ==
     [] s = 6 -> <<Rule(1, <<Lit(WEIRD), Var(<<>>, X, c, <<>>)>>, TRUE, <<Named(Q, Val("str", <<122>>))>>, dom)>>
     [] s = 7 -> <<Rule(2, <<Lit(LB)>>, FALSE, <<>>, dom), Rule(1, <<Lit(LA), Var(<<>>, Y, C2, <<>>), Var(<<>>, X, c, <<>>)>>, FALSE, <<>>, dom)>>
     [] s = 8 -> <<Rule(1, <<Lit(LB), Var(<<>>, X, c, <<>>)>>, FALSE, <<>>, dom), Rule(1, <<Lit(LA)>>, TRUE, <<Named(X, v)>>, dom)>>
-    [] OTHER -> [i \in 1..3 |-> Group(c, v, dom)[Perm(s - 8)[i]]]
+    [] s \in 9..14 -> [i \in 1..3 |-> Group(c, v, dom)[Perm(s - 8)[i]]]
+    \* 15..17: variables in the domain part: subdomain <u>; host <u>.example.com; host example.com:<int:port>
+    [] s = 15 -> <<DynRule(1, <<Lit(LA), Var(<<>>, X, c, <<>>)>>, FALSE, Var(<<>>, UN, ConvU(1), <<>>))>>
+    [] s = 16 -> <<DynRule(1, <<Lit(LA), Var(<<>>, X, c, <<>>)>>, TRUE, Var(<<>>, UN, ConvU(1), <<DOT>> \o EX))>>
+    [] s = 17 -> <<DynRule(1, <<Lit(LA), Var(<<>>, X, c, <<>>)>>, FALSE, Var(EX \o <<COLON>>, PN, ConvU(4), <<>>))>>
+    \* 18, 19: two variables in one segment: /la/<int:y>-<x>   /la/v<x>.<int:y>~s
+    [] s = 18 -> <<Rule(1, <<Lit(LA), Var2(<<>>, Y, C2, <<MINUS>>, X, c, <<>>)>>, FALSE, <<>>, dom)>>
+    [] s = 19 -> <<Rule(1, <<Lit(LA), Var2(<<118>>, X, c, <<DOT>>, Y, C2, <<126, 115>>)>>, TRUE, <<>>, dom)>>
+    \* 20, 21: shape 3 (extra query values) under sort_parameters / sort_key = value
+    [] OTHER -> <<Rule(1, <<Lit(LA), Var(<<112, 45>>, X, c, <<126, 115>>)>>, FALSE, <<>>, dom)>>
 
 \* shapes where the variable is not the last segment cannot hold a path converter followed by a variable
-ShapeOKFor(s, c) == (s = 7 => c.k # "path")
+ShapeOKFor(s, c) == (s \in {7, 18, 19} => c.k # "path")
+BindOKFor(s, b) == (s \in {16, 17} => BindU(b).hm) /\ (s = 15 => ~BindU(b).hm)
 
-EX == <<101, 120, 97, 109, 112, 108, 101, 46, 99, 111, 109>>     \* example.com
-API == <<97, 112, 105>>
-WWW == <<119, 119, 119>>
-OTHERH == <<111, 46, 101, 120, 97, 109, 112, 108, 101>>         \* o.example
-HTTPS == <<104, 116, 116, 112, 115>>
-ScriptU(i) == CASE i = 1 -> <<SLASH>> [] i = 2 -> <<SLASH, 97, 112, 112>> [] OTHER -> <<SLASH, 97, 112, 112, SLASH>>
-\* [hm, ruledom, server, sub, scheme]
-BindU(i) ==
-  CASE i = 1 -> [hm |-> FALSE, dom |-> <<>>, server |-> EX, sub |-> <<>>, scheme |-> HTTP]
-    [] i = 2 -> [hm |-> FALSE, dom |-> API, server |-> EX, sub |-> WWW, scheme |-> HTTP]
-    [] i = 3 -> [hm |-> FALSE, dom |-> API, server |-> EX, sub |-> API, scheme |-> HTTPS]
-    [] i = 4 -> [hm |-> FALSE, dom |-> <<>>, server |-> EX, sub |-> WWW, scheme |-> HTTP]
-    [] i = 5 -> [hm |-> TRUE, dom |-> EX, server |-> EX, sub |-> <<>>, scheme |-> HTTP]
-    [] i = 6 -> [hm |-> TRUE, dom |-> OTHERH, server |-> EX, sub |-> <<>>, scheme |-> HTTPS]
-    [] OTHER -> [hm |-> FALSE, dom |-> API, server |-> EX, sub |-> <<>>, scheme |-> HTTP]
-
-MapOf == [rules |-> RulesFor(sh, ConvU(cv), val, BindU(bd).dom), host_matching |-> BindU(bd).hm, redirect_defaults |-> TRUE]
+MapOf == [rules |-> RulesFor(sh, ConvU(cv), val, BindU(bd).dom), host_matching |-> BindU(bd).hm, redirect_defaults |-> TRUE,
+          sort |-> IF sh = 20 THEN 1 ELSE IF sh = 21 THEN 2 ELSE 0]
 BindOf == [server |-> BindU(bd).server, script |-> ScriptU(sc), sub |-> BindU(bd).sub, scheme |-> BindU(bd).scheme]
 \* the call: endpoint 1 with x (not given in the defaults shapes half of the time: val2 = "none"), y for shape 7, an extra for shape 3
-ValsOf == IF sh >= 9 THEN (IF val.ty = "none" THEN <<>> ELSE <<Named(X, val)>>) \o (IF val2.ty = "none" THEN <<>> ELSE <<Named(Y, val2)>>)
+ValsOf == IF sh \in {15, 16} THEN <<Named(X, val), Named(UN, val2)>>
+          ELSE IF sh = 17 THEN <<Named(PN, val2), Named(X, val)>>
+          ELSE IF sh \in {18, 19} THEN <<Named(X, val), Named(Y, val2)>>
+          ELSE IF sh \in 9..14 THEN (IF val.ty = "none" THEN <<>> ELSE <<Named(X, val)>>) \o (IF val2.ty = "none" THEN <<>> ELSE <<Named(Y, val2)>>)
           ELSE
           (IF sh \in {5, 8} /\ val2.ty = "none" THEN <<>> ELSE <<Named(X, val)>>)
           \o (IF sh = 7 THEN <<Named(Y, val2)>> ELSE <<>>)
-          \o (IF sh = 3 THEN <<Named(Q, Val("str", <<97, 32, 38, 61, 233>>)), [name |-> <<122>>, ty |-> "list", v |-> <<>>, items |-> <<<<49>>, <<43>>>>]>> ELSE <<>>)
+          \o (IF sh \in {3, 20, 21} THEN <<Named(Q, Val("str", <<97, 32, 38, 61, 233>>)), [name |-> <<122>>, ty |-> "list", v |-> <<>>, items |-> <<<<49>>, <<43>>>>]>> ELSE <<>>)
 
 \* initial states = (shape, converter, binding): cheap; the values are chosen by Next so that the laws
 \* are evaluated by all workers
@@ -128,10 +153,12 @@ Init == /\ ph = 0
         /\ cv \in ConvIds
         /\ ShapeOKFor(sh, ConvU(cv))
         /\ \E x \in Binds : bd = x \div 10 /\ sc = x % 10
+        /\ BindOKFor(sh, bd)
         /\ val = NoVal /\ val2 = NoVal /\ ext = FALSE
 Next == /\ ph = 0 /\ ph' = 1
-        /\ val' \in ValuesOf(ConvU(cv)) \cup (IF sh >= 9 THEN {NoVal} ELSE {})
-        /\ val2' \in (IF sh >= 9 THEN GroupY ELSE IF sh = 7 THEN ValuesOf(C2) ELSE IF sh \in {5, 8} THEN {NoVal, Val("str", <<>>)} ELSE {NoVal})
+        /\ val' \in ValuesOf(ConvU(cv)) \cup (IF sh \in 9..14 THEN {NoVal} ELSE {})
+        /\ val2' \in (IF sh \in 9..14 THEN GroupY ELSE IF sh \in {15, 16} THEN DomVals ELSE IF sh = 17 THEN PortVals
+                      ELSE IF sh \in {18, 19} THEN ValuesOf(C2) ELSE IF sh = 7 THEN ValuesOf(C2) ELSE IF sh \in {5, 8} THEN {NoVal, Val("str", <<>>)} ELSE {NoVal})
         /\ ext' \in BOOLEAN
         /\ UNCHANGED <<sh, cv, bd, sc>>
 NoNext == FALSE /\ UNCHANGED vars
@@ -177,8 +204,8 @@ Laws ==
       Matches == MatchM(m, Dom.dom, Delivered.path)
       bad == IF ~L0(Built) THEN "Law0" ELSE IF ~L1(m, vals, Built, Delivered, Dom, Matches) THEN "Law1"
              ELSE IF ~L2(m, b, Built, Matches) THEN "Law2" ELSE IF ~L3(m, b, Delivered, Dom) THEN "Law3" ELSE "ok"
-  IN IF ph = 0 \/ bad = "ok" \/ Candidates(m.rules, 1, vals) = {} THEN TRUE ELSE PrintT(<<bad, Built.url, Delivered, Matches>>) /\ FALSE
+  IN IF ph = 0 \/ bad = "ok" \/ Candidates(m.rules, 1, vals) = {} \/ (\E i \in Candidates(m.rules, 1, vals) : ~InDomain(m.rules[i], vals)) THEN TRUE ELSE PrintT(<<bad, Built.url, Delivered, Matches>>) /\ FALSE
 
 ExportCase == LET m == MapOf b == BindOf IN
-  ph = 0 \/ Candidates(m.rules, 1, ValsOf) = {} \/ PrintT(ToJson([map |-> m, bind |-> b, ep |-> 1, vals |-> ValsOf, ext |-> ext, url |-> BuildUrl(m, b, 1, ValsOf, ext).url]))
+  ph = 0 \/ Candidates(m.rules, 1, ValsOf) = {} \/ (\E i \in Candidates(m.rules, 1, ValsOf) : ~InDomain(m.rules[i], ValsOf)) \/ PrintT(ToJson([map |-> m, bind |-> b, ep |-> 1, vals |-> ValsOf, ext |-> ext, url |-> BuildUrl(m, b, 1, ValsOf, ext).url]))
 =============================================================================
